@@ -274,7 +274,12 @@ def run(ctx):
         pcm = rng.randrange(2)
         fw = rng.randint(1, 9)
         fh = rng.randint(1, 9)
-        g = [fw, fh, cdf, pcm, rng.choice([1, 2, 3, 255, 256, 1023, rng.randint(1, 70000)]), rng.choice([1, 255, 511, rng.randint(1, 70000)])]
+        def exc():
+            # boundary values of the depth computation: 2^k-2, 2^k-1, 2^k, 2^k+1 for every k up to 64
+            if rng.random() < 0.6:
+                return max(1, (1 << rng.randint(1, 64)) + rng.choice([-2, -1, -1, -1, 0, 1]))
+            return rng.choice([1, 2, 3, 255, 256, 511, 1023, rng.randint(1, 70000)])
+        g = [fw, fh, cdf, pcm, exc(), exc()]
         comp = rng.randrange(3)
         ah = rng.choice([fh, fh + rng.randint(0, 4), rng.randint(0, 12)])
         aw = rng.choice([fw, fw + rng.randint(0, 4), rng.randint(1, 12)])
@@ -293,6 +298,13 @@ def run(ctx):
         ctx.count(1, key=("fin", repr((g, comp, arr))) if arr and any(any(r) for r in arr) else None, bucket="finish_component")
         # property on the implementation for these arbitrary arrays too (when at least picture sized)
         depth = dl[4] if comp == 0 else dl[5]
+        # the depth is computed independently: intlog2(excursion + 1) = bit_length(excursion)
+        ind_depth = int(g[4] if comp == 0 else g[5]).bit_length()
+        if depth != ind_depth:
+            ctx.violation("component-depth-wrong", {"kind": "array", "g": g, "comp": comp, "array": arr},
+                          "video_depth gives %d bits for excursion %d (expected %d): samples may exceed 2^depth-1" % (
+                              depth, g[4] if comp == 0 else g[5], ind_depth), observed=depth, expected=ind_depth)
+        depth = ind_depth
         w, h = (dl[0], dl[1]) if comp == 0 else (dl[2], dl[3])
         if ah >= h and aw >= w:
             ok = len(out) == h and all(len(r) == w for r in out) and all(type(v) is int and 0 <= v < (1 << depth) for r in out for v in r)
